@@ -14,6 +14,10 @@
 //   qfk.dflt f m k fl                  QField<Rational>::ratrecon(r,f,m,k)          (rc = false)
 //   qf f m fl rc                       QField<Rational>::ratrecon(r,f,m,rc)
 //   qf.dflt f m fl                     QField<Rational>::ratrecon(r,f,m)            (rc = true)
+// polynomial version (Poly1Dom<Modular<int64_t>,Dense> and Poly1Dom<Modular<double>,Dense>):
+//   poly.rr5 / poly.check / poly.rr6 / poly.rr5d / poly.checkd / poly.rr6d   p dk fr nP c0 .. c(nP-1) nM c0 .. c(nM-1)
+//       rr5 = ratrecon(N,D,P,M,dk), check = ratreconcheck(N,D,P,M,dk), rr6 = ratrecon(N,D,P,M,dk,fr)
+//       output: "<ok> N <coeffs low degree first> D <coeffs>"   (leading zeros stripped)
 // The library prints diagnostics on std::cerr when a reconstruction fails: stderr goes to /dev/null.
 #include <iostream>
 #include <sstream>
@@ -24,10 +28,43 @@
 #include "givinteger.h"
 #include "givrational.h"
 #include "qfield.h"
+#include "modular.h"
+#include "givpoly1.h"
 
 using namespace Givaro;
 
 static bool B(const Integer& x) { return x != 0; }
+
+template <class Field>
+static void polycase(const std::string& v, const std::vector<Integer>& a) {
+    // a = p dk fr nP coeffs nM coeffs
+    if (a.size() < 5) { std::cout << "BAD-LINE" << std::endl; return; }
+    Field F((typename Field::Residu_t)(int64_t)a[0]);
+    typedef Poly1Dom<Field, Dense> PD;
+    PD PZ(F, "X");
+    int64_t dk = (int64_t)a[1];
+    bool fr = a[2] != 0;
+    size_t nP = (size_t)(int64_t)a[3];
+    if (a.size() < 5 + nP) { std::cout << "BAD-LINE" << std::endl; return; }
+    size_t nM = (size_t)(int64_t)a[4 + nP];
+    if (a.size() != 5 + nP + nM) { std::cout << "BAD-LINE" << std::endl; return; }
+    typename PD::Element P, M, N, D;
+    P.resize(nP); M.resize(nM);
+    for (size_t i = 0; i < nP; ++i) F.init(P[i], a[4 + i]);
+    for (size_t i = 0; i < nM; ++i) F.init(M[i], a[5 + nP + i]);
+    PZ.init(N, Degree(2)); PZ.init(D, Degree(1));      // destinations start non-empty
+    bool ok;
+    if (v == "poly.rr5" || v == "poly.rr5d") ok = PZ.ratrecon(N, D, P, M, Degree(dk));
+    else if (v == "poly.check" || v == "poly.checkd") ok = PZ.ratreconcheck(N, D, P, M, Degree(dk));
+    else ok = PZ.ratrecon(N, D, P, M, Degree(dk), fr);
+    PZ.setdegree(N); PZ.setdegree(D);
+    std::cout << (ok ? 1 : 0) << " N";
+    Integer t;
+    for (size_t i = 0; i < N.size(); ++i) std::cout << " " << F.convert(t, N[i]);
+    std::cout << " D";
+    for (size_t i = 0; i < D.size(); ++i) std::cout << " " << F.convert(t, D[i]);
+    std::cout << std::endl;
+}
 
 int main() {
     if (!freopen("/dev/null", "w", stderr)) return 3;
@@ -41,6 +78,12 @@ int main() {
         if (v.empty()) continue;
         std::vector<Integer> a; std::string t;
         while (is >> t) a.push_back(Integer(t.c_str()));
+        if (v.compare(0, 5, "poly.") == 0) {
+            if (v == "poly.rr5" || v == "poly.check" || v == "poly.rr6") polycase<Modular<int64_t> >(v, a);
+            else if (v == "poly.rr5d" || v == "poly.checkd" || v == "poly.rr6d") polycase<Modular<double> >(v, a);
+            else std::cout << "BAD-LINE" << std::endl;
+            continue;
+        }
         Integer num(987654321), den(123456789);   // destinations start from recognisable values
         bool ok = true;
         std::ostringstream o;
